@@ -316,3 +316,8 @@ def run(rep: Report, prog: Program, tier: str) -> None:
                             construct=f"close-all via {callee.name}"))
     else:
         rep.ok("C13-ID", f"_set_state(CLOSED): every remaining channel goes through {callee.name}()", sample="sets 'closed' on every exit where the channel exists")
+
+    # ---------------- C13-RESETQ (shared with C02-KICK)
+    rep.rule("C13-RESETQ", "overlapping close() calls: the reset queue is restarted after each completed request", min_instances=1)
+    from .common import reset_rekick_rule
+    reset_rekick_rule(rep, prog, PROP, "C13-RESETQ")
